@@ -21,11 +21,11 @@ from . import algos_roll as rl
 UPD = [("date", "date"), ("data", "optdata"), ("inow", "optint")]
 
 # which properties each post-state field of a functional contract carries
-P_ADJUST = {"_capital": ("C02", "C07"), "_last_fee": ("C07",), "_net_flows": ("C03", "C07"), "stale": ("C08",), "*": ("C07",)}
+P_ADJUST = {"_capital": ("C02", "C07"), "_last_fee": ("C07",), "_net_flows": ("C03", "C07"), "stale": ("C08", "C01"), "*": ("C07",)}
 P_OUTLAY = {"result": ("C02", "C05", "C07", "C18"), "*": ("C07",)}
 P_TRANSACT = {
     "_position": ("C02", "C07", "C18"), "_outlay": ("C07", "C18"), "_bidoffer_paid": ("C07", "C18"), "_capital": ("C02", "C07"),
-    "_last_fee": ("C07",), "_net_flows": ("C03", "C07"), "_needupdate": ("C01", "C08"), "stale": ("C08",), "raises": ("C10",), "*": ("C07", "C08"),
+    "_last_fee": ("C07",), "_net_flows": ("C03", "C07"), "_needupdate": ("C01", "C08"), "stale": ("C08", "C01"), "raises": ("C10",), "*": ("C07", "C08"),
 }
 P_SECUPD = {
     "_value": ("C01", "C02"), "_notl_value": ("C01", "C17"), "_price": ("C01", "C04"), "now": ("C08",), "_positions": ("C01", "C08", "C18"),
